@@ -83,8 +83,16 @@ def global_obs(c, O1_ref, movs, upto=None):
     zero = sym.toF(0.0)
 
     def cell(idx):
-        b, pos = sym.split_index(sym.flat_index(idx[0], row_ax), (br, n_dof))
+        rho = sym.flat_index(idx[0], row_ax)
+        b, pos = sym.split_index(rho, (br, n_dof))
         col = idx[1]
+        if upto is not None and not sym.is_pyint(upto) and not sym.is_pyint(rho):
+            # Euclidean division is unique (trusted instances at the loop counter and its successor): with rho = b D + pos,
+            # 0 <= pos < D:  b = t  <=>  t D <= rho < (t + 1) D,   b < t  <=>  rho < t D
+            D = zi(n_dof)
+            for t in (sym.simp(zi(upto) - 1), zi(upto)):
+                c.fact(z3.Implies(z3.And(D > 0, zi(pos) >= 0, zi(pos) < D, zi(rho) == zi(b) * D + zi(pos)),
+                                  z3.And((zi(b) == t) == z3.And(t * D <= zi(rho), zi(rho) < (t + 1) * D), (zi(b) < t) == (zi(rho) < t * D))), heavy=True)
 
         def ref_val():
             return _rd(f_ref, O1_ref, b, pos, n_ref, col)
@@ -170,6 +178,7 @@ class SSI_multi_setup(Contract):
     qualname = "pyoma2.functions.ssi.SSI_multi_setup"
     props = ("C03",)
     name = "structure"
+    thorough_only = True          # about ten minutes of path exploration (nonlinear block indices): thorough tier only
     generic_replay = False
     callable_modular = False
     use = {"pyoma2.functions.ssi.build_hank": "havoc-flow"}
@@ -186,6 +195,10 @@ class SSI_multi_setup(Contract):
         Nd = S.integer("Ndat", lo=8)
         ordmax = S.integer("ordmax", lo=1)
         c.assume(zi(ordmax) <= zi(sym.mul(br, n_ref)))
+        n_dof = n_ref
+        for k in range(NS):
+            n_dof = sym.add(n_dof, n_mov[k])
+        c.assume(zi(ordmax) <= zi(sym.mul(sym.sub(br, 1), n_dof)))     # the shifted observability matrix has at least ordmax rows
         Y = [{"ref": S.array(f"ref{k}", "float", shape=(n_ref, Nd), finite=True), "mov": S.array(f"mov{k}", "float", shape=(n_mov[k], Nd), finite=True)} for k in range(NS)]
         c.memo["ghost:ms"] = {"br": br, "n_ref": n_ref, "n_mov": n_mov, "ordmax": ordmax, "Y": Y}
         return {"Y": Y, "fs": S.real("fs", pos=True), "br": br, "ordmax": ordmax, "method_hank": "cov_mm", "step": 1}
